@@ -5,6 +5,8 @@ import (
 	"fmt"
 	"os"
 	"path/filepath"
+	"runtime"
+	"runtime/pprof"
 	"sort"
 	"strings"
 	"time"
@@ -36,6 +38,13 @@ type harnessSummary struct {
 }
 
 func report(prop, tier string, seed int, specs []HarnessSpec, known []KnownFinding, results []jobResult, ld *loaded, noReplay bool, t0 time.Time, loadDur time.Duration, solver string) {
+	stopProfile()
+	if mp := os.Getenv("VF_MEMPROFILE"); mp != "" {
+		runtime.GC()
+		f, _ := os.Create(mp)
+		pprof.WriteHeapProfile(f)
+		f.Close()
+	}
 	sums := map[string]*harnessSummary{}
 	var order []string
 	funcs := map[string]int{}
@@ -73,7 +82,9 @@ func report(prop, tier string, seed int, specs []HarnessSpec, known []KnownFindi
 			order = append(order, sp.Harness)
 			reachHit[sp.Harness] = map[string]bool{}
 		}
-		s.Instances++
+		if !r.sub {
+			s.Instances++
+		}
 		if r.err != "" {
 			inconclusive = append(inconclusive, sp.Harness+": "+r.err)
 			s.Inconclusive = append(s.Inconclusive, r.err)
@@ -282,25 +293,25 @@ func report(prop, tier string, seed int, specs []HarnessSpec, known []KnownFindi
 		"violations":  len(violLines),
 		"assumptions": al,
 		"coverage": map[string]interface{}{
-			"evaluations":         totalPaths,
-			"distinct_nontrivial": totalNT,
-			"rule":                "one evaluation = one explored path of a harness instance (distinct decision prefix over the real SSA code, feasibility of every branch decided by the solver); non-trivial = the path took at least one solver-decided symbolic decision and reached at least one assertion; paths are distinct by construction (DFS over decision prefixes)",
-			"samples":             samples,
-			"obligations":         totalObl,
-			"discharged":          totalDis,
-			"exhaustive":          exhaustive && len(violLines) == 0,
-			"harnesses":           hs,
-			"functions_encoded":   fl,
-			"stubs_used":          sl,
-			"queries":             totalQ,
-			"solver_time_s":       solverTime,
-			"solvers":             []string{solver},
-			"load_and_ssa_build_s": loadDur.Seconds(),
-			"inconclusive":        inconclusive,
-			"known_findings_hit":  kfl,
+			"evaluations":                         totalPaths,
+			"distinct_nontrivial":                 totalNT,
+			"rule":                                "one evaluation = one explored path of a harness instance (distinct decision prefix over the real SSA code, feasibility of every branch decided by the solver); non-trivial = the path took at least one solver-decided symbolic decision and reached at least one assertion; paths are distinct by construction (DFS over decision prefixes)",
+			"samples":                             samples,
+			"obligations":                         totalObl,
+			"discharged":                          totalDis,
+			"exhaustive":                          exhaustive && len(violLines) == 0,
+			"harnesses":                           hs,
+			"functions_encoded":                   fl,
+			"stubs_used":                          sl,
+			"queries":                             totalQ,
+			"solver_time_s":                       solverTime,
+			"solvers":                             []string{solver},
+			"load_and_ssa_build_s":                loadDur.Seconds(),
+			"inconclusive":                        inconclusive,
+			"known_findings_hit":                  kfl,
 			"counterexamples_replayed_natively":   replayed,
 			"counterexamples_reproduced_natively": reproduced,
-			"explanation":         "bounded symbolic execution of the real code from its go/ssa form, regenerated from /repo on this run; every assertion is an SMT query (pc AND NOT assertion) over all values of the symbolic inputs within the bounds listed per harness; nothing is claimed outside them",
+			"explanation":                         "bounded symbolic execution of the real code from its go/ssa form, regenerated from /repo on this run; every assertion is an SMT query (pc AND NOT assertion) over all values of the symbolic inputs within the bounds listed per harness; nothing is claimed outside them",
 		},
 	}
 	os.MkdirAll(filepath.Join(verifDir, "evidence"), 0o755)
